@@ -13,6 +13,5 @@ CONSTANTS
   KsFailureIsNotExist = FALSE
   DefectNoConnCached = FALSE
   Variant = "ok"
-INVARIANTS TypeOK NoStaleRead StaleHasPendingEvent FailedNotCached ErrorIsOwn NotExistOnlyIfAbsent SharedCache RouteFailedNotCached RouteSingleFlight RouteBounded RouteFromSchema
+INVARIANTS ReachMarks TypeOK NoStaleRead StaleHasPendingEvent FailedNotCached ErrorIsOwn NotExistOnlyIfAbsent SharedCache RouteFailedNotCached RouteSingleFlight RouteBounded RouteFromSchema
 CHECK_DEADLOCK FALSE
-
